@@ -251,7 +251,12 @@ func (c C14) Run(t *tape.Tape, opt core.RunOpt) (res core.Result) {
 		data := []byte(doc.String())
 		op.Doc = doc.String()
 
+		var probes []workload.Probe
+		for _, f := range frags {
+			probes = append(probes, workload.ProbesFromText(f.Text)...)
+		}
 		before := workload.Observe(root)
+		lookBefore := workload.ProbeLookups(root, probes)
 		var err error
 		var load *c14Load
 		faultDesc := ""
@@ -456,6 +461,14 @@ func (c C14) Run(t *tape.Tape, opt core.RunOpt) (res core.Result) {
 				ops = append(ops, op)
 				return
 			}
+			if la := workload.ProbeLookups(root, probes); la != lookBefore {
+				res.Violate("C14", "failed_load_changed_state:member_lookup_changed",
+					fmt.Sprintf("%s returned an error (%s); printing and introspection are unchanged but looking members up by name is not (the name->member maps that coercion, field resolution and duplicate checks use): before %q, after %q", api, oneLine(err.Error()), lookBefore, la),
+					map[string]interface{}{"document": op.Doc, "fault": faultDesc, "poison": poisonKind})
+				op.Outcome = "VIOLATION after " + op.Outcome
+				ops = append(ops, op)
+				return
+			}
 			failedBefore = true
 		} else {
 			op.Outcome = "ok"
@@ -481,6 +494,14 @@ func (c C14) Run(t *tape.Tape, opt core.RunOpt) (res core.Result) {
 				}
 			}
 			mo := workload.Observe(model)
+			if lm, lr := workload.ProbeLookups(model, probes), workload.ProbeLookups(root, probes); lm != lr {
+				res.Violate("C14", "root_differs_from_model_after_valid_load:member_lookup",
+					fmt.Sprintf("after a history containing failed loads, looking members up by name differs from a fresh root that replayed only the %d successful loads: model %q, root %q", len(good), lm, lr),
+					map[string]interface{}{"document": op.Doc, "failed_before": failedBefore})
+				op.Outcome = "VIOLATION after ok"
+				ops = append(ops, op)
+				return
+			}
 			if d := mo.Diff(after); d != "" {
 				cls := "sdl"
 				switch {
